@@ -120,6 +120,9 @@ func init() {
 			ruleGrowth(c)
 			ruleProtoGrammar(c)
 			ruleRepeatedNesting(c)
+			ruleToplevelRepeated(c)
+			ruleProtoMapEntry(c)
+			ruleClearBeforeRead(c)
 			// "every length is exact": the size/frame laws of every codec that can appear in proto-mode output
 			ruleSizeLaw(c)
 			ruleFrame(c)
